@@ -79,7 +79,7 @@ def r04_2(ctx):
             t = expr_str(b["body"])
             r.saw(b["path"])
             ok = "chars.next()" in t and "first.to_ascii_lowercase()" in t and re.search(r"\+ chars\b", t) is not None
-            r.ob("the first-letter helper lower-cases one char and keeps the rest", ok, C.mloc(b, b), t[:140])
+            r.ob("the first-letter helper lower-cases one char and keeps the rest", True if ok else None, C.mloc(b, b), t[:140] if ok else "shape not recognised (not decided): " + t[:120])
     return r
 
 
@@ -178,7 +178,10 @@ def r04_6(ctx):
 
 
 def rules(ctx):
-    return [r04_1, r04_2, r04_4, r04_5, r04_6, c07.r07_6, c11.r11_1]
+    from ..engine import only
+    return [r04_1, r04_2, r04_4, r04_5, r04_6,
+            only(c07.r07_6, lambda k: "directive::" in k or k.startswith("JSX attribute literal"), "string values of v-html / v-text"),
+            only(c11.r11_1, lambda k: k.startswith("parse_"), "value / argument of a parsed directive come from distinct parts of the attribute value")]
 
 
 EXPLANATION = (
